@@ -255,10 +255,10 @@ impl BigNumber {
     }
 
     pub fn inverse(&self, n: &BigNumber) -> ClResult<BigNumber> {
-        if n.bn.is_one() || n.bn.is_zero() {
+        let n = BigNumber::_get_modulus(&n.bn);
+        if n.is_one() || n.is_zero() {
             return Err(err_msg!("Invalid modulus"));
         }
-        let n = BigNumber::_get_modulus(&n.bn);
 
         // Euclid's extended algorithm, Bèzout coefficient of `n` is not needed
         //n is either prime or coprime
@@ -275,7 +275,8 @@ impl BigNumber {
         //    return t
         //
         let (mut t, mut new_t) = (BigInt::zero(), BigInt::one());
-        let (mut r, mut new_r) = (n.clone(), self.bn.clone());
+        // the loop below is only correct for a non-negative operand
+        let (mut r, mut new_r) = (n.clone(), self.bn.mod_floor(&n));
 
         while !new_r.is_zero() {
             let quotient = &r / &new_r;
